@@ -314,6 +314,7 @@ func c08Histories(run *vl.Run, depth int) {
 			cur := -1
 			var got []Move
 			exhausted := false
+			interrupted := false
 			pv := MoveNone
 			var names []string
 			bad := ""
@@ -324,6 +325,7 @@ func c08Histories(run *vl.Run, depth int) {
 				case o.n == -1:
 					mg.ResetOnDemand()
 					cur, got, exhausted, pv = -1, nil, false, MoveNone
+					interrupted = false
 				case o.n == -3:
 					// the batch generator of the same instance in between: its own result must be right, and it must not
 					// disturb a phased iteration that is resumed afterwards only after a reset (documented use)
@@ -341,8 +343,11 @@ func c08Histories(run *vl.Run, depth int) {
 					if cur == o.pos && len(got) > 0 && !exhausted {
 						bad = "skip" // batch generation in the middle of a phased iteration of the same position: not a documented use
 					}
-					// (a phased iteration of the other position that was under way simply goes on afterwards: the batch
-					// generator has its own buffer and does not touch the phased state)
+					// a phased iteration that was under way shares the evasion targets with the batch generator: resuming it
+					// after a batch generation is not a documented use (the search never does it) - such sequences are skipped
+					if cur >= 0 && len(got) > 0 && !exhausted {
+						interrupted = true
+					}
 				case o.n == -2:
 					if cur == o.pos && len(got) > 0 && !exhausted {
 						// changing the PV in the middle of an iteration is not a documented use: skip sequence
@@ -355,6 +360,11 @@ func c08Histories(run *vl.Run, depth int) {
 						bad = "skip" // reuse on the same position without reset: excluded by the documentation
 						break
 					}
+					if cur == o.pos && interrupted {
+						bad = "skip" // phased iteration resumed after a batch generation by the same instance
+						break
+					}
+					interrupted = false
 					if cur != o.pos {
 						cur, got, exhausted = o.pos, nil, false
 					}
